@@ -54,6 +54,18 @@ func init() {
 				}
 				return tokenThenComment.Match(in) || commaBeforeColon.Match(in) || numberThenBracket.Match(in)
 			},
+			"senTokenizerOnlyOneLeadingComment": func(v *mon.Violation) bool {
+				if !strings.HasPrefix(v.Entry, "sen.Tokenizer") || v.Kind != "error-differs" {
+					return false
+				}
+				m, _ := v.Case.(map[string]any)
+				if m == nil {
+					return false
+				}
+				in, _ := m["input"].(mon.B)
+				// the text starts (after white space) with a // comment and the tokenizer reports what follows it as extra
+				return strings.HasPrefix(strings.TrimLeft(string(in), " \t\r\n"), "//") && strings.Contains(v.Observed, "extra characters after close")
+			},
 			"senTokenizerFeatureGap": func(v *mon.Violation) bool {
 				if !strings.HasPrefix(v.Entry, "sen.Tokenizer") {
 					return false
